@@ -8,6 +8,12 @@ elements and loop targets over lists of aliases.  `.copy()`, `np.array(...)`,
 
 A store `alias[...] = …`, `alias[...] op= …`, `alias.attr = …`, or an in-place
 method (`fill`, `sort`, `resize`, …) on an alias changes the caller's object.
+
+Whose object it is, is decided over the resolved call graph: the parameters of a
+public function belong to its caller; a parameter of a private helper (`_name`)
+belongs to a caller only if some call site hands it (a view of) a parameter that
+itself belongs to a caller.  A private helper that zeroes an array its caller
+has just built writes into nobody else's data.
 """
 
 from __future__ import annotations
@@ -229,6 +235,64 @@ def _stores(fn):
     return stores_to(fn)
 
 
+def _private(fi) -> bool:
+    n = fi.name
+    return n.startswith('_') and not (n.startswith('__') and n.endswith('__'))
+
+
+def _call_sites(ctx):
+    """(file, qualname) of callee -> [(caller FunctionInfo, call node)] over the resolved program, once per run"""
+    cache = getattr(ctx.prog, '_own_call_sites', None)
+    if cache is None:
+        from ..resolve import callees
+        cache = {}
+        for f in ctx.prog.all_functions():
+            for c, g in callees(ctx.prog, f):
+                if g is not None:
+                    cache.setdefault(id(g.node), []).append((f, c))
+        ctx.prog._own_call_sites = cache
+    return cache
+
+
+def exposed(ctx, fi, param, seen=None) -> bool:
+    """does `param` of fi hold an object that belongs to a caller outside the analysed helpers?"""
+    if not _private(fi):
+        return True
+    seen = seen or set()
+    key = (id(fi.node), param)
+    if key in seen:
+        return False
+    seen.add(key)
+    sites = _call_sites(ctx).get(id(fi.node), [])
+    if not sites:
+        return True
+    ps = list(fi.params)
+    for caller, call in sites:
+        off = 1 if ps[:1] in (['self'], ['cls']) and isinstance(call.func, ast.Attribute) else 0
+        arg = None
+        if param in ps:
+            i = ps.index(param) - off
+            if 0 <= i < len(call.args):
+                arg = call.args[i]
+        for k in call.keywords:
+            if k.arg == param:
+                arg = k.value
+        if arg is None:
+            if any(isinstance(a, ast.Starred) for a in call.args) or any(k.arg is None for k in call.keywords):
+                return True
+            continue
+        _, aliases = param_writes(caller)
+        roots = set()
+        r = alias_of(arg, aliases)
+        if r:
+            roots.add(r)
+        roots |= _elements(arg, aliases, {})
+        for r in roots:
+            if r in caller.params and exposed(ctx, caller, r, seen):
+                return True
+    return False
+
+
 def run_own(ctx):
     run_shared(ctx)
     if ctx.prop not in SCOPES:
@@ -261,6 +325,10 @@ def run_own(ctx):
             for node, root, what in ws:
                 if (fi.qualname, root) in ALLOWED:
                     ctx.ob(rule, fi, f'{what} (parameter {root})', True, ALLOWED[(fi.qualname, root)], line=node.lineno, nontrivial=False)
+                    continue
+                if not exposed(ctx, fi, root):
+                    ctx.ob(rule, fi, f'{what} (parameter {root} of a private helper)', True,
+                           'every resolved call site hands this helper an object its caller created itself', line=node.lineno)
                     continue
                 ctx.ob(rule, fi, f'{what} writes into the caller\'s `{root}`', False,
                        f'`{root}` is a parameter and the written object is a view of it (no copy in between): the caller\'s data '
